@@ -203,7 +203,11 @@ struct NavRun {
                     else want_type = 6;
                 }
                 Outcome o;
-                if (!ens) o = use_len ? real(P_FIELD_LEN, 0, name) : real(P_FIELD, 0, name);
+                int64_t alias = 0;
+                if (!ens && use_len && (op.c & 4)) {        // pass the name by pointer into the document (any field of this object that carries these bytes)
+                    for (auto &kid : k) if (kid.name == name) { alias = (int64_t)kid.name_off + 1; break; }
+                }
+                if (!ens) o = use_len ? real(P_FIELD_LEN, alias, name) : real(P_FIELD, 0, name);
                 else o = use_len ? real(P_FIELD_ENS_LEN, 0, name, want_type) : real(P_FIELD_ENS, 0, name, want_type);
                 bool want = found && type_ok;
                 bump(res.cnt, found ? "nav.lookup_found" : (j < k.size() ? "probe.lookup_overshoot_rewind" : "nav.lookup_ran_off_end"));
@@ -291,6 +295,7 @@ struct NavRun {
         cur.root = &root; cur.array_root = plan.root != 0;
         ps.setup(plan.max_depth, plan.prefill, plan.doc, plan.root != 0);
         ps.guard_lookups = false;       // the model only issues lookups inside object frames
+        ps.use_cb = !plan.P("nocb");
         Op init; init.code = plan.root ? P_INIT_ARR : P_INIT_OBJ; init.a = -1;
         Outcome o = ps.call(init);
         if (!o.ret) fail("init", fmt("init rejected a valid document (%s)", err_name(o.err)));
@@ -395,6 +400,7 @@ Plan nav_generate(uint64_t base, const std::string &prop, uint64_t index, int ti
     else if (prop == "C11") { w_raw = 15 + (int)ro.below(30); w_tw = 10 + (int)ro.below(25); w_field = (int)ro.below(15); }
     else if (prop == "C06") { w_raw = (int)ro.below(12); }
     else { w_field = 15; w_ens = 4; w_raw = 8; w_tw = 6; }   // mixed corpus (C16 / C18 / C17 reuse this engine)
+    if (prop != "C16" && ro.chance(1, 5)) p.par["nocb"] = 1;      // an application without a token callback
     int nops = 1 + (int)ro.below(tier ? 120 : 80);
     GenCursor g; g.root = &root; g.cur.root = &root; g.cur.array_root = p.root != 0;
     std::vector<Node> dummy;
@@ -421,7 +427,7 @@ Plan nav_generate(uint64_t base, const std::string &prop, uint64_t index, int ti
         if (op.code == M_FIELD || op.code == M_FIELD_ENS) {
             static const int kinds[] = {0, 0, 0, 0, 1, 2, 2, 3, 4, 5, 6, 7};
             op.a = kinds[ro.below(12)];
-            op.c = (int64_t)(ro.below(64) * 8) | (ro.chance(1, 2) ? 1 : 0) | (op.code == M_FIELD_ENS && ro.chance(1, 5) ? 2 : 0);
+            op.c = (int64_t)(ro.below(64) * 8) | (ro.chance(1, 2) ? 1 : 0) | (op.code == M_FIELD_ENS && ro.chance(1, 5) ? 2 : 0) | (ro.chance(1, 3) ? 4 : 0);
         } else if (op.code == M_STREQ || op.code == M_TO_WRITER) op.a = (int64_t)ro.below(4);
         p.ops.push_back(op);
         g.apply(op);
